@@ -26,6 +26,27 @@ def mc_codec(sweeps):
     return f
 
 
+def mc_simple(module, consts, invariants, control=None):
+    """a one-configuration design-level check; control = (consts, invariant) that must be violated"""
+    def f(tier, seed):
+        c = consts(tier) if callable(consts) else consts
+        cfg = "SPECIFICATION Spec\n%sINVARIANTS %s\nCHECK_DEADLOCK FALSE\n" % ("CONSTANTS %s\n" % c if c else "", " ".join(invariants))
+        res = [vlib.run_mc(module, cfg, timeout=1500)]
+        if control:
+            cfg2 = "SPECIFICATION Spec\nCONSTANTS %s\nINVARIANTS %s\nCHECK_DEADLOCK FALSE\n" % (control[0], control[1])
+            r = vlib.run_mc(module, cfg2, timeout=600, workers=1, expect_violation=control[1])
+            r["module"] = module + "[negative control]"
+            res.append(r)
+        return res
+    return f
+
+
+MC_LISTS = mc_simple("MC_Lists", None, ["WellFormedList", "FromCanonicalFile", "Vectors"])
+MC_GATES = mc_simple("MC_Gates", 'BytesMode = "padded" Window = 5000', ["EntGateAgrees", "CountGateAgrees", "SizesCorrespond"])
+MC_NAMES = mc_simple("MC_Names", 'StringerTable = "full10" Window = 70000', ["NoPanic", "NamesAgree"],
+                     control=('StringerTable = "stale9" Window = 12', "NamesAgree"))
+
+
 # --------------------------------------------------------------------------
 # recording
 
@@ -118,6 +139,8 @@ def coverage(prop, rec, lines, v, mcs, ntraces, extra):
         drift=[list(x) for x in v.drift[:10]],
         known_finding_events=len(v.known),
     )
+    if rec.get("need_cover") and any(v.cover.get(str(l), 0) != 2048 for l in range(10)):
+        raise Infra("index cover incomplete: %s" % v.cover)
     if v.cover and any(v.cover.values()):
         cov["list_indices_covered_per_language"] = v.cover
     cov.update(extra or {})
@@ -154,6 +177,21 @@ RECIPES = {
     "C15": dict(mc=[mc_codec(False)], record=gen_recorder("C15"), props=["C15"], speaks=lambda e: e.get("op") == "Check",
                 rule="CheckMnemonic error values on sentences with one class of defect (counts 0..30, unknown tokens at every position, wrong last word) "
                      "and on the C03 mutation classes; distinct by (input, language)"),
+    "C08": dict(mc=[MC_LISTS], record=gen_recorder("C08"), props=["C08"], exhaustive=True, need_cover=True,
+                speaks=lambda e: e.get("op") in ("ByEntropy", "Check", "ListSource"),
+                rule="all 10 x 2048 list indices: the word emitted through NewMnemonicByEntropy for every index (cover family), validation of sentences "
+                     "containing every word and of the same sentences with one word replaced by a list neighbour, and the parsed source text of internal/wordlist/*.go"),
+    "C09": dict(mc=[MC_GATES], record=gen_recorder("C09"), props=["C09", "DRIFT"], exhaustive=True,
+                speaks=lambda e: e.get("op") in ("ByEntropy", "NewMnemonic", "Read"),
+                rule="every entropy length 0..4096 (+nil, +2^16/2^20/2^24 +-{0,1,4}) and every word count -4096..4096 (+extremes of int) under a counting source; "
+                     "distinct by (operation, length or count, language)"),
+    "C14": dict(mc=[MC_NAMES], record=gen_recorder("C14"), props=["C14"],
+                speaks=lambda e: "panicked" in e,
+                rule="product of argument classes (21 Language values x strings incl. every invalid-UTF-8 shape x entropy sizes x counts), fuzzed bytes, "
+                     "multi-megabyte inputs, each call under recover and a 120 s watchdog; distinct by (operation, arguments)"),
+    "C16": dict(mc=[MC_NAMES], record=gen_recorder("C16"), props=["C16"], exhaustive=True,
+                speaks=lambda e: e.get("op") == "String",
+                rule="Language(N).String() for every N in -70000..70000 and 42 extreme values; distinct by N"),
     "C05": dict(mc=[mc_codec(False)], record=gen_recorder("C05"), props=["C05"], speaks=valid_enc,
                 rule="NewMnemonicByEntropy outputs decoded by the specification's decoder; distinct by (entropy, language); includes all single-bit flips of seeded bases"),
 }
